@@ -17,12 +17,9 @@
 (* partially", in the weakest reading (see NegotiatedOK).                    *)
 EXTENDS Naturals, Sequences, FiniteSets, TLC, SequencesExt
 
-CONSTANTS
-  Impl,          \* "asis": defaults keyed by strings.ToLower(mime) while mimes are compared with
+CONSTANT Impl    \* "asis": defaults keyed by strings.ToLower(mime) while mimes are compared with
                  \*         strings.EqualFold (what internal/fmtp does);
                  \* "intended": defaults keyed consistently with the comparison (Unicode simple folding)
-  LineCache      \* a function fmtp line -> ParseLine(line) for some lines; pure optimisation (parsing a
-                 \* string is slow in TLC), any line not in its domain is parsed.  EmptyCache: none.
 
 -----------------------------------------------------------------------------
 (* Part 1: strings *)
@@ -129,9 +126,14 @@ LineFrom(ps) ==
 ParseLine(line) == LineFrom(ParseParameters(line))
 Assemble(M, clock, ch, L) ==
   [kind |-> M.kind, mf |-> M.mf, ml |-> M.ml, clock |-> clock, ch |-> ch, p |-> L.p, pf |-> L.pf, plid |-> L.plid]
-EmptyCache == [l \in {} |-> 0]
-ParseLineC(line) == IF line \in DOMAIN LineCache THEN LineCache[line] ELSE ParseLine(line)
-Parse(mime, clock, ch, line) == Assemble(ParseMime(mime), clock, ch, ParseLineC(line))
+Parse(mime, clock, ch, line) == Assemble(ParseMime(mime), clock, ch, ParseLine(line))
+\* The same with a cache: a record [lines, mimes] of two functions, fmtp line -> ParseLine(line) and
+\* mime type -> ParseMime(mime), for some lines / mime types.  Pure optimisation (parsing a string is
+\* slow in TLC); a string that is not in the domain is parsed.
+EmptyCache == [lines |-> [l \in {} |-> 0], mimes |-> [m \in {} |-> 0]]
+ParseLineC(cache, line) == IF line \in DOMAIN cache.lines THEN cache.lines[line] ELSE ParseLine(line)
+ParseMimeC(cache, mime) == IF mime \in DOMAIN cache.mimes THEN cache.mimes[mime] ELSE ParseMime(mime)
+ParseC(cache, mime, clock, ch, line) == Assemble(ParseMimeC(cache, mime), clock, ch, ParseLineC(cache, line))
 
 DefKey(P) == IF Impl = "asis" THEN P.ml ELSE P.mf
 DefaultClock(P)    == CASE DefKey(P) = "audio/opus" -> 48000
@@ -166,7 +168,10 @@ PartialP(H, N) == H.mf = N.mf /\ ClockRateEqual(H, H.clock, N.clock) /\ Channels
 
 \* Codec descriptors are records with at least mime, clock, ch, line; a *prepared* descriptor also
 \* carries its parsed form P (so that it is parsed once).
-Prep(c)  == [f \in (DOMAIN c) \cup {"P"} |-> IF f = "P" THEN Parse(c.mime, c.clock, c.ch, c.line) ELSE c[f]]
+\* (a record constructor is evaluated at once and @@ tabulates; a function constructor would
+\* re-parse at every access to .P)
+PrepC(cache, c) == [P |-> ParseC(cache, c.mime, c.clock, c.ch, c.line)] @@ c
+Prep(c)  == PrepC(EmptyCache, c)
 Match(a, b)        == MatchP(a.P, b.P)          \* fmtp.Parse(a).Match(fmtp.Parse(b))
 PartialMatch(h, n) == PartialP(h.P, n.P)
 
@@ -204,7 +209,7 @@ FirstWithPt(list, pt) == LET s == {i \in 1..Len(list) : list[i].pt = pt} IN
 AddIfNew(list, c) == IF \E i \in 1..Len(list) : list[i].pt = c.pt THEN list ELSE Append(list, c)
 
 \* MediaEngine.matchRemoteCodec(remoteCodec, typ, exactMatches, partialMatches) -> [c, t, err]
-MatchRemoteCodec(rc, local, exact, partial) ==
+MatchRemoteCodec(cache, rc, local, exact, partial) ==
   IF "apt" \in DOMAIN rc.P.p
   THEN LET apt == rc.P.p["apt"] IN
        IF ~IsUint(apt) \/ Uint(apt) > 255 THEN [c |-> NoCodec, t |-> "none", err |-> TRUE]   \* strconv.ParseUint(apt, 10, 8)
@@ -220,7 +225,7 @@ MatchRemoteCodec(rc, local, exact, partial) ==
                    line2 == IF am.t = aptMatch
                             THEN ReplaceFirstSubSeq("apt=" \o ToString(am.c.pt), "apt=" \o ToString(pt), rc.line)
                             ELSE rc.line
-                   toMatch == IF line2 = rc.line THEN rc ELSE Prep([rc EXCEPT !.line = line2])
+                   toMatch == IF line2 = rc.line THEN rc ELSE PrepC(cache, [rc EXCEPT !.line = line2])
                    r == FuzzySearch(toMatch, local)
                IN [c |-> r.c,
                    t |-> IF r.t = "exact" /\ aptMatch = "partial" THEN "partial" ELSE r.t,
@@ -228,13 +233,13 @@ MatchRemoteCodec(rc, local, exact, partial) ==
   ELSE LET r == FuzzySearch(rc, local) IN [c |-> r.c, t |-> r.t, err |-> FALSE]
 
 \* one pass of updateFromRemoteDescription over the remote codecs of one media section
-RECURSIVE Pass(_, _, _)
-Pass(rem, local, acc) ==     \* acc = [exact, partial, err]
+RECURSIVE Pass(_, _, _, _)
+Pass(cache, rem, local, acc) ==     \* acc = [exact, partial, err]
   IF rem = <<>> \/ acc.err THEN acc
   ELSE LET rc == Head(rem)
-           m  == MatchRemoteCodec(rc, local, acc.exact, acc.partial)
+           m  == MatchRemoteCodec(cache, rc, local, acc.exact, acc.partial)
            nc == IF m.t = "none" THEN rc ELSE [rc EXCEPT !.fb = FbIntersect(m.c.fb, rc.fb)]
-       IN Pass(Tail(rem), local,
+       IN Pass(cache, Tail(rem), local,
                [exact   |-> IF m.t = "exact" THEN AddIfNew(acc.exact, nc) ELSE acc.exact,
                 partial |-> IF m.t = "partial" THEN AddIfNew(acc.partial, nc) ELSE acc.partial,
                 err     |-> m.err])
@@ -247,9 +252,9 @@ PushAll(list, cs) == IF cs = <<>> THEN [list |-> list, err |-> FALSE]
 
 \* Negotiation of one media section of a kind not negotiated before:
 \* [neg |-> negotiated codecs of that kind, err |-> updateFromRemoteDescription returned an error]
-NegotiateSection(local, remote) ==
-  LET p1 == Pass(remote, local, [exact |-> <<>>, partial |-> <<>>, err |-> FALSE])
-      p2 == Pass(remote, local, p1)          \* second pass in case there were missed RTX codecs
+NegotiateSection(cache, local, remote) ==
+  LET p1 == Pass(cache, remote, local, [exact |-> <<>>, partial |-> <<>>, err |-> FALSE])
+      p2 == Pass(cache, remote, local, p1)          \* second pass in case there were missed RTX codecs
   IN IF p2.err THEN [neg |-> <<>>, err |-> TRUE]
      ELSE LET chosen == IF p2.exact # <<>> THEN p2.exact ELSE p2.partial
               pu == PushAll(<<>>, chosen)
